@@ -46,6 +46,7 @@ class JsonTracer:
     def __init__(self, yatiml, lex):
         self.traces = []
         self.open = {}
+        self.broken = None      # set when the private state is not observable
         self.lex = lex
         self.cls = yatiml.dumper.Dumper
         self.orig = None
@@ -77,6 +78,18 @@ class JsonTracer:
             self.orig = None
 
     def record(self, dumper, event, chunk, err):
+        if self.broken:
+            return
+        try:
+            self._record(dumper, event, chunk, err)
+        except AttributeError as e:
+            # a refactoring renamed the private emitter state: this layer of
+            # observation is gone; verdicts then rest on the public-API replay
+            self.broken = str(e)
+            self.traces = []
+            self.open = {}
+
+    def _record(self, dumper, event, chunk, err):
         name = next((n for c, n in EVNAME if isinstance(event, c)), 'other')
         tr = self.open.get(id(dumper))
         if tr is None:
